@@ -89,4 +89,16 @@ def programs():
     add("dummy-only-packet", [dummy("short", "0")], "packet:net/server")
     add("bool-array", [length("n", "char"), array("flags", "bool", length="n"), array("more", "bool:short")])
     add("offset-padded-encoded", [length("n", "char", offset="-1"), field("s", "encoded_string", length="n", padded="true"), field("t", "encoded_string", length="3", padded="true")])
+    # a switch directly after a chunked section that holds its field; a chunked section nested in a chunked section and
+    # in a case of a chunked parent, each with more instructions after the inner section
+    add("switch-directly-after-chunked", [chunked([field("kind", "char"), field("name", "string"), brk()]),
+                                          switch("kind", [case("1", [field("text", "string")]), case("2", [field("inner", "U")])])])
+    add("chunked-in-chunked-then-more", [chunked([field("a", "string"), brk(), chunked([field("b", "string"), brk()]), field("c", "string"), brk(), field("d", "string")])])
+    add("chunked-case-in-chunked-parent", [chunked([field("k", "char"), switch("k", [case("1", [chunked([field("b", "string"), brk()]), field("c", "string")])]), brk(), field("d", "string")])])
+    # decimal literals with leading zeros are valid integers of the format wherever an integer is written
+    add("leading-zeros", [field("a", "char", "007"), field(None, "short", "0300"), field("s", "string", length="03"), array("xs", "char", length="02"),
+                          field("k", "char"), switch("k", [case("01", [field("y", "char")]), case("2", [])]),
+                          field("e", "E1"), switch("e", [case("0200", [field("z", "char")]), case("A", [])]), dummy("char", "00")])
+    add("leading-zeros-dummy", [dummy("short", "010")])
+    add("two-chunked-sections-then-field", [chunked([field("a", "string")]), chunked([field("b", "string")]), field("c", "string")])
     return out
